@@ -351,3 +351,109 @@ for _op in ('min', 'max'):
     for _n in (1, 2):
         _add(mk_mixed(_op, _n, 1, region_pre=f'not ({R_C[1]})', tier='quick' if _n == 1 else 'thorough'))
         _add(mk_mixed(_op, _n, 1, region=R_C, tier='quick' if _n == 1 else 'thorough'))
+
+
+# ---------------------------------------------------------------- logical reductions with missing cells over every block layout
+
+def body_logical_all_layouts(env, n0, n1, n2, z0, z1, z2, z3, skipna):
+    from vf import rt
+    nan = [bool(n0), bool(n1), bool(n2)]
+    zero = [bool(z0), bool(z1), bool(z2), bool(z3)]
+    skipna = bool(skipna)
+
+    def run():
+        sf = env.sf
+        from static_frame.core.type_blocks import TypeBlocks
+        # row 0: NaN or 2.0 (or 0.0 for the first column when z3), row 1: 0.0 or 3.0
+        rows = [[(env.nan if nan[c] else (0.0 if (c == 0 and zero[3]) else 2.0)) for c in range(3)], [(0.0 if zero[c] else 3.0) for c in range(3)]]
+        ref = [[(M if nan[c] else (0 if (c == 0 and zero[3]) else 2)) for c in range(3)], [(0 if zero[c] else 3) for c in range(3)]]
+        cols = [[rows[r][c] for r in range(2)] for c in range(3)]
+        got, exp = [], []
+        for lay in layouts.compositions(3):
+            f = sf.Frame(TypeBlocks.from_blocks(layouts.build_blocks(env, cols, 'float64', lay)), index=[100, 101], columns=['a', 'b', 'c'])
+            res = []
+            for name in ('all', 'any'):
+                for axis in (0, 1):
+                    try:
+                        res.append(env.obs(getattr(f, name)(axis=axis, skipna=skipna).values.tolist()))
+                    except TypeError:
+                        res.append('TypeError')
+            got.append(res)
+        want = []
+        for name in ('all', 'any'):
+            agg = all if name == 'all' else any
+            for axis in (0, 1):
+                ls = lines(ref, axis)
+                if not skipna and any(M in l for l in ls):
+                    want.append('TypeError')
+                else:
+                    # an all-missing line: all([]) is True, any([]) is False (as np.all / np.any of nothing)
+                    want.append([agg(bool(v) for v in l if v != M) for l in ls])
+        return got, [want] * len(got)
+    return rt.untraced(run)
+
+
+_add(Cond('logical_missing_all_layouts', [(p, 'bool') for p in ('n0', 'n1', 'n2', 'z0', 'z1', 'z2', 'z3', 'skipna')], body_logical_all_layouts,
+        functions=['_ufunc_logical_skipna', 'TypeBlocks.ufunc_axis_skipna'],
+        bounds='2x3 float64 frame; first-row cells missing or not, zero / non-zero pattern symbolic (7 Booleans), skipna symbolic; EVERY block layout of 3 columns',
+        route='Frame.all / any (both axes, skipna): missing cells ignored with skipna and rejected (TypeError) without, the same over all block layouts', timeout=400))
+
+
+# ---------------------------------------------------------------- position / label of the extreme value on mixed column kinds
+
+def body_argminmax_kinds(env, k1, k2, m0, skipna, which, axis_flag):
+    from vf import rt
+    kinds = [1]
+    for k in (k1, k2):
+        for c in range(3):
+            if k == c:
+                kinds.append(c)
+    m0, skipna, axis = bool(m0), bool(skipna), (1 if axis_flag else 0)
+    name = ('iloc_min', 'iloc_max', 'loc_min', 'loc_max')[_conc(which, 0, 3)]
+
+    def run():
+        sf = env.sf
+        from static_frame.core.type_blocks import TypeBlocks
+        table = {0: (13, 4, 25), 1: (7.5, 2.5, 0.5), 2: (True, False, True)}
+        cols = [list(table[k]) for k in kinds]
+        cols[0] = [(env.nan if m0 else 9.5), 2.5, 30.5]          # a missing cell AHEAD of the extreme of its column
+        ref_cols = [list(table[k]) for k in kinds]
+        ref_cols[0] = [(M if m0 else 9.5), 2.5, 30.5]
+        dts = [KINDS[{0: 0, 1: 1, 2: 2}[k]][0] for k in kinds]
+        better = (lambda a, b: a < b) if name.endswith('min') else (lambda a, b: a > b)
+        ref_rows = [[ref_cols[c][r] for c in range(3)] for r in range(3)]
+        ls = ref_cols if axis == 0 else ref_rows
+        labels = [100, 101, 102] if axis == 0 else ['a', 'b', 'c']
+        want, bad = [], False
+        for l in ls:
+            if M in l and not skipna:
+                bad = True
+                want.append(M)
+                continue
+            best = None
+            for i, v in enumerate(l):
+                if v == M:
+                    continue
+                if best is None or better(v, l[best]):
+                    best = i
+            want.append(best)
+        if name.startswith('loc'):
+            exp = 'raises' if bad else [labels[i] for i in want]
+        else:
+            exp = want
+        got = []
+        for lay in lays_for(kinds):
+            f = sf.Frame(TypeBlocks.from_blocks(layouts.build_blocks_typed(env, cols, dts, lay)), index=[100, 101, 102], columns=['a', 'b', 'c'])
+            try:
+                got.append(env.obs(getattr(f, name)(axis=axis, skipna=skipna).values.tolist()))
+            except (RuntimeError, ValueError):
+                got.append('raises')
+        return got, [exp] * len(got)
+    return rt.untraced(run)
+
+
+_add(Cond('argminmax_column_kinds_all_layouts', [('k1', 'int'), ('k2', 'int'), ('m0', 'bool'), ('skipna', 'bool'), ('which', 'int'), ('axis_flag', 'bool')], body_argminmax_kinds,
+        ranges={'k1': (0, 2), 'k2': (0, 2), 'which': (0, 3)},
+        functions=['_argminmax_2d' if False else 'Frame.iloc_min'] if False else [],
+        bounds='3x3 frame: a float column (first cell possibly missing) and two columns of symbolic kind (int64, float64, bool: the values array is float or object); iloc_min / iloc_max / loc_min / loc_max (symbolic), both axes, skipna symbolic; every block layout',
+        route='Frame.iloc_min/iloc_max/loc_min/loc_max on mixed column kinds: position / label of the first extreme per line, missing cells skipped with skipna and never silently treated as numbers without', timeout=400))
